@@ -73,9 +73,20 @@ def _leaves(v, out):
         out.append(v)
 
 
+LOOKALIKE = {"settings": {"log": {"LINECOMMENT000001": "a", "LINECOMMENT000002": "b", "x": 1, "INCLUDE000003": "i", "INCLUDE000004": "j"}, "k": 2},
+             "doc": {"sections": {"deep": {"my_BLOCKCOMMENT000010_a": 1, "my_BLOCKCOMMENT000011_b": 2, "BLOCKCOMMENT000001": "p", "BLOCKCOMMENT000002": "q"}, "n": 1}},
+             "LINECOMMENT000007": 7, "LINECOMMENT000008": 8}
+
+
 def gen_cases(ctx: Ctx, ntrees: int) -> list[dict]:
     rng = ctx.rng
     cases = []
+    # ordinary data keys that merely look like placeholders, several on one level (key text is data)
+    for p in ([], ["settings"], ["settings", "log"], ["doc"], ["doc", "sections"], ["doc", "sections", "deep"]):
+        pe = [enc_key(k) for k in p]
+        cases.append({"kind": "reduce", "t": enc(LOOKALIKE), "p": pe})
+        cases.append({"kind": "exists", "t": enc(LOOKALIKE), "p": pe})
+        cases.append({"kind": "readscope", "json": True, "t": enc(LOOKALIKE), "p": pe})
     for _ in range(ntrees):
         t = _tree(rng, rng.choice([1, 2, 3, 3, 4, 6, 10]))
         te = enc(t)
